@@ -51,6 +51,7 @@ def evalConv (args : List String) : String :=
   match args with
   | [r, a, f] => run r a f "0" "c0"
   | [r, a, f, c, e] => run r a f c e
+  | [r, a, f, c, e, _warmUps] => run r a f c e      -- earlier reads of the same reader do not matter
   | _ => "bad-op"
 
 end Bmc.Driver
